@@ -1292,6 +1292,17 @@ impl RoomAuthorisations {
             };
             let entity_name = &deletion.entity_name.clone().unwrap();
 
+            //the edges that define a room only change through a room definition (add_room_node)
+            if matches!(
+                entity_name.as_str(),
+                system_entities::ROOM_ENT
+                    | system_entities::AUTHORISATION_ENT
+                    | system_entities::ENTITY_RIGHT_ENT
+                    | system_entities::USER_AUTH_ENT
+            ) {
+                continue;
+            }
+
             let room = &deletion.room_id;
             let room = self.rooms.get(room);
             if room.is_none() {
@@ -1344,6 +1355,17 @@ impl RoomAuthorisations {
                 continue;
             };
             let entity_name = &deletion.entity_name.clone().unwrap();
+
+            //the rows that define a room only change through a room definition (add_room_node)
+            if matches!(
+                entity_name.as_str(),
+                system_entities::ROOM_ENT
+                    | system_entities::AUTHORISATION_ENT
+                    | system_entities::ENTITY_RIGHT_ENT
+                    | system_entities::USER_AUTH_ENT
+            ) {
+                continue;
+            }
 
             let room = &deletion.room_id;
             let room = self.rooms.get(room);
